@@ -29,6 +29,7 @@ FnProduct ==
 
 \* C06 / C08: the attribute product of state variables ----------------------------------------------
 VarTypes == {<<"uint256", U256>>, <<"address", Ty("address", 0)>>, <<"bool", Ty("bool", 0)>>, <<"bytes32", Ty("bytesN", 32)>>,
+             <<"payable", Ty("address payable", 0)>>, <<"int128", Ty("int", 128)>>, <<"bytes", Ty("bytes", 0)>>,
              <<"string", Ty("string", 0)>>, <<"user", Var("Foo")>>, <<"array", N("E.ArraySubscript", A0, <<<<U256>>, <<>>>>)>>,
              <<"mapping", N("E.Type", [ty |-> "mapping", n |-> 0], <<<<Ty("address", 0)>>, <<U256>>>>)>>}
 VarProduct ==
